@@ -120,7 +120,9 @@ def run_check(spec, tier, seed):
     gen_note = ""
     try:
         from . import generated
-        gen_note = generated.regenerate(hdir) if hdir else "skipped (no harness build)"
+        # without a harness build the constants cannot be reflected, but the translation of the sources does not need it: the source-level
+        # theorems are always checked against what the code says NOW (never against the translation of an earlier tree)
+        gen_note = generated.regenerate(hdir) if hdir else "constants skipped (no harness build); " + generated.regenerate_src()
     except Exception as e:  # noqa
         gen_note = "regeneration failed: %r" % (e,)
     ok_drv, out_drv = core.lake_build(["driver"])
